@@ -169,7 +169,7 @@ def phase_lists(M, rng, thorough):
     """phase offsets at construction and for the following setPhaseOffset calls"""
     base = [0.0, math.pi / M, math.pi / 4, 0.3, -1.7, 2 * math.pi, 100.0]
     out = [[0.0, math.pi / M, 0.3], [math.pi / 4, 0.0]]
-    k = 3 if thorough else 1
+    k = 6 if thorough else 1
     for _ in range(k):
         n = int(rng.randint(1, 4))
         out.append([float(rng.choice(base))] + [float(rng.uniform(-7, 7)) for _ in range(n)])
@@ -198,7 +198,7 @@ def run(ctx):
     ctx.assumptions += ["table coordinates are recovered by undoing scale and the phase offset the harness passed (integrality 1e-9)",
                         "62-bit claim rests on GF(2)-linearity (Gray.tla header): inverse laws on the one-hot basis + additivity",
                         "numpy int64 holds every value below 2^62"]
-    nrand = 200 if thorough else 40
+    nrand = 600 if thorough else 40
     ctx.notes["gray_nrand"] = nrand
     # ---- stage M + emission, all TLC runs concurrently
     jobs = [("psk-all", lambda: cc.run_machine(kind="PSK", cards=list(range(0, 1101)) + [2048, 4096], noff=2, smode="seeded",
